@@ -47,13 +47,40 @@ def net_fingerprint(agent):
     if isinstance(agent, LiteAgent):
         h.update(repr(agent.body).encode())
         return h.hexdigest()[:16]
-    for name, net in sorted(agent.evolvable_attributes(networks_only=True).items()):
+    # the trained (evaluation / policy) networks and the optimizer state.  Lagging copies (DQN's
+    # actor_target) are NOT compared: clone() runs the mutation hook, which by design re-synchronises
+    # the target with the online network (observation reported for C01/C08, not a C05 clause).
+    try:
+        names = sorted({g.eval for g in agent.registry.groups})
+    except AttributeError:
+        names = sorted(agent.evolvable_attributes(networks_only=True))
+    for name in names:
+        net = getattr(agent, name)
         nets = net if isinstance(net, list) else [net]
         for m in nets:
             for k, v in m.state_dict().items():
                 h.update(k.encode())
                 h.update(v.detach().cpu().numpy().tobytes())
+    for t in opt_state_tensors(agent):
+        h.update(t.detach().cpu().numpy().tobytes())
     return h.hexdigest()[:16]
+
+
+def opt_state_tensors(agent):
+    """tensors held in the state of the agent's optimizers (Adam moments, step counters)"""
+    out = []
+    try:
+        for oc in agent.registry.optimizers:
+            w = getattr(agent, oc.name)
+            opts = w.optimizer if isinstance(w.optimizer, (list, tuple)) else [w.optimizer]
+            for o in opts:
+                for st in o.state.values():
+                    for k in sorted(st):
+                        if torch.is_tensor(st[k]):
+                            out.append(st[k])
+    except AttributeError:
+        pass          # optimizers organised differently: network parameters alone are compared
+    return out
 
 
 def storages(agent):
@@ -68,6 +95,8 @@ def storages(agent):
             out.add(id(m))
             for p in m.parameters():
                 out.add(("ptr", p.data_ptr()))
+    for t in opt_state_tensors(agent):
+        out.add(("ptr", t.data_ptr()))
     return out
 
 
@@ -187,7 +216,7 @@ class C05(vlib.Driver):
         if style < 0.4:
             return list(range(n))
         if style < 0.8:
-            return rng.sample(range(0, 40), n)
+            return rng.sample(range(0, max(40, 2 * n)), n)
         base = rng.randint(50, 3000)
         return rng.sample(range(base, base + 3 * n + 3), n)
 
@@ -211,7 +240,7 @@ class C05(vlib.Driver):
                                       "pop": [{"index": 3 * i + 1, "fitness": f} for i, f in enumerate(fits)],
                                       "gens": [{"draws": [list(x) for x in tuples] + self.gen_draws(rng, n, t, 2), "newfit": []}]})
         # B. seeded single selections on real DQN agents
-        nb = 110 if quick else 700
+        nb = 80 if quick else 500
         for _ in range(nb):
             n = rng.choice([1, 2, 2, 3, 3, 4, 5, 6, 8]) if quick else rng.choice([1, 2, 3, 4, 5, 6, 8, 10, 12])
             p = rng.choice([1, 2, 3, n, n, n, n + 1, 8]) if quick else rng.choice([1, 2, n, n, n + 2, 12])
@@ -221,14 +250,14 @@ class C05(vlib.Driver):
                           "pop": [{"index": ix, "fitness": f} for ix, f in zip(self.rand_indices(rng, n), self.rand_fitness(rng, n, w))],
                           "gens": [{"draws": self.gen_draws(rng, n, t, p + 2), "newfit": []}]})
         # C. chains of generations on real agents, half of them through tournament_selection_and_mutation
-        nc, G = (6, 7) if quick else (30, 20)
+        nc, G = (4, 6) if quick else (20, 20)
         for ci in range(nc):
             n = rng.choice([2, 3, 4, 6])
             p = rng.choice([n, n, 4, 6])
             t, w = rng.randint(1, 4), rng.randint(1, 4)
             cases.append(self.chain_case(rng, "dqn", "utils" if ci % 2 == 0 else "select", n, p, t, w, rng.random() < 0.7, G))
         # D. long chains, light agents (sizes where NumPy switches sort algorithm in the thorough tier)
-        nd, G = (24, 20) if quick else (150, 30)
+        nd, G = (16, 14) if quick else (100, 25)
         for ci in range(nd):
             n = rng.randint(2, 8) if quick else rng.choice([2, 5, 8, 12, 16, 17, 20, 24])
             p = rng.choice([n, n, max(1, n - 1), n + 1])
@@ -236,7 +265,7 @@ class C05(vlib.Driver):
             cases.append(self.chain_case(rng, "lite", "select", n, p, t, w, rng.random() < 0.7, G))
         # E. non-dyadic fitness values (order checked against exact rationals per case), light agents;
         #    populations beyond 16 where the sort is not an insertion sort
-        ne = 80 if quick else 1500
+        ne = 60 if quick else 1200
         made = 0
         while made < ne:
             n = rng.choice([2, 3, 5, 8, 12, 17, 24]) if quick else rng.choice([2, 3, 5, 8, 12, 17, 24, 33, 48])
@@ -280,8 +309,15 @@ class C05(vlib.Driver):
         while len(self.pool) <= k:
             obs = spaces.Box(-1, 1, (3,), dtype=np.float32)
             # partial net_config on purpose (DESIGN 8.21b)
-            self.pool.append(DQN(obs, spaces.Discrete(2), index=len(self.pool),
-                                 net_config={"encoder_config": {"hidden_size": [8]}}))
+            ag = DQN(obs, spaces.Discrete(2), index=len(self.pool),
+                     net_config={"encoder_config": {"hidden_size": [8]}})
+            # one gradient step, so that the optimizer has state that a clone must copy and not share
+            from tensordict import TensorDict
+            b = 4
+            ag.learn(TensorDict({"obs": torch.randn(b, 3), "action": torch.randint(0, 2, (b, 1)),
+                                 "reward": torch.randn(b, 1), "next_obs": torch.randn(b, 3),
+                                 "done": torch.zeros(b, 1)}, batch_size=[b]))
+            self.pool.append(ag)
         return self.pool[k]
 
     def make_pop(self, case):
@@ -405,7 +441,9 @@ class C05(vlib.Driver):
                     par = o["parent"] if isinstance(o["parent"], int) and 0 <= o["parent"] < 4999 else 4999
                     return f"({par}, {coq_Z(o['index'])}, {self.qlist(o['fitness'])})"
                 ob = f"(Some ({oa(rec['elite'])}, [" + "; ".join(oa(m) for m in rec["members"]) + "]))"
-            gs.append(f"({pop}, {draws}, {reqs}, {ob})")
+            shared = vlib.coq_bool(bool(rec.get("alias")))
+            changed = vlib.coq_bool(bool(rec["old_changed"]) or rec["old_list_changed"])
+            gs.append(f"({pop}, {draws}, {reqs}, ({shared}, {changed}), {ob})")
         if not gs:
             return None
         return f"check_chain {c} [" + "; ".join(gs) + "]"
@@ -567,9 +605,14 @@ class C05(vlib.Driver):
                 labs.append("skipped:float-order-differs-from-exact")
         return sorted(set(labs))
 
+    nb_budget = 8        # K disagreements whose neighbourhood is searched (each search runs the code 5-6 times)
+
     def neighbours(self, case, rng):
         # same populations, other draws; then shorter chains
-        for _ in range(6):
+        if self.nb_budget <= 0:
+            return
+        self.nb_budget -= 1
+        for _ in range(5):
             c = copy.deepcopy(case)
             size = len(c["pop"])
             for g in c["gens"]:
